@@ -23,7 +23,36 @@ def run(ctx, model_available=True):
                     ("recv", "7;1;2;0;2;", ()), ("set_reboot", 7, True), ("recv", f"7;1;1;0;2;{again}", ()),
                     ("recv", "7;1;2;0;2;", ()), ("recv", f"7;1;1;0;2;{again}", ())]
             hs.append(ops)
-    return run_property(ctx, "C06", profiles=profiles, histories=hs, n_quick=700, n_thorough=12000, oracle=oracle_c06,
+    # time requests under several time zones (fixed offsets, daylight saving in effect all year)
+    import os
+    import time as _time
+
+    from histgen import run_history
+
+    zones = ["UTC", "AAA-1BBB,J1/0,J365/23", "CCC+5", "DDD-9:30EEE,J1/0,J365/23", "FFF+3GGG,J1/0,J365/23"]
+    counter = [0]
+
+    def run_hist(ops, metric):
+        counter[0] += 1
+        tz = zones[counter[0] % len(zones)] if counter[0] % 2 == 0 else None
+        old = os.environ.get("TZ")
+        try:
+            if tz:
+                os.environ["TZ"] = tz
+                _time.tzset()
+            return run_history(ops, metric=metric)
+        finally:
+            if tz:
+                if old is None:
+                    os.environ.pop("TZ", None)
+                else:
+                    os.environ["TZ"] = old
+                _time.tzset()
+
+    for z in zones:
+        for v in (None, "1.4", "2.2"):
+            hs.append(([("recv", f"0;255;3;0;2;{v}", ())] if v else []) + [("recv", "7;255;3;0;1;", ()), ("recv", "0;255;3;0;1;", ())])
+    return run_property(ctx, "C06", profiles=profiles, histories=hs, run_hist=run_hist, n_quick=700, n_thorough=12000, oracle=oracle_c06,
                         model_available=model_available,
                         assumptions=["the time reply is compared with the controller clock bracketed around the step (calendar.timegm(time.localtime()))",
                                      "write-fault steps are excluded here (C08/C10 cover them); order between a presentation request and the version query is compared through the model, the oracle compares multisets"])
